@@ -59,7 +59,9 @@ TSubmit ==
                THEN {} ELSE {V("HARNESS", "bad submit")})
   /\ UNCHANGED <<nJ, jc, N, coe, deps, cls, st, ctxMay, ctxDone, doomed, wait, ctxAtCall, res, run, gs, nexit, nruns, c2May, c2Done>>
 
-DepFailed(j) == \E d \in DepSet(j) : Failed(d)
+\* some job j transitively depends on has failed
+RECURSIVE DepFailed(_)
+DepFailed(j) == \E d \in DepSet(j) : Failed(d) \/ DepFailed(d)
 
 TStart ==
   /\ Is("start")
